@@ -26,6 +26,9 @@ class World:
         self.identical = bool(spec.get("identical", False))
         self.offsets = spec.get("offsets", {})  # {"o<id>"/"c<id>": float} twin-run shifts
         self.scale = float(spec.get("scale", 1.0))
+        # exact ties: [tag, fid, rid_src, rid_dst] gives realization rid_dst the coefficients of rid_src for that
+        # function, so the two realizations return bit-identical values of it at every point
+        self.ties = {(t[0], int(t[1]), int(t[3])): int(t[2]) for t in spec.get("ties", [])}
         nv, nr = len(self.var_ids), len(self.real_ids)
         fids = [("o", i) for i in self.obj_ids] + [("c", i) for i in self.con_ids]
         nf = len(fids)
@@ -41,7 +44,7 @@ class World:
                         hfloat(-1.0, 1.0, self.wseed, "c", tag, fid, vid), 3
                     )
             for ri, rid in enumerate(self.real_ids):
-                rkey = 0 if self.identical else rid
+                rkey = 0 if self.identical else self.ties.get((tag, fid, rid), rid)
                 self.b[ri, fi] = round(
                     hfloat(-3.0, 3.0, self.wseed, "b", rkey, tag, fid), 3
                 ) * self.scale + float(self.offsets.get(f"{tag}{fid}", 0.0))
